@@ -363,13 +363,15 @@ pub fn gen_value(r: &mut Rng, sink: &mut Sink) -> TracedValue {
 fn gen_pairs(r: &mut Rng, sink: &mut Sink) -> Vec<(String, TracedValue)> {
     let n = match r.below(10) {
         0 | 1 => 0,
-        2 => 32,
+        // a persisted span accumulates the values of several events: its set may exceed the 32 entries
+        // one event can carry
+        2 => *r.pick(&[32usize, 32, 33, 40]),
         3 => r.range(7, 31),
         _ => r.range(1, 6),
     };
     sink.bump(&format!(
         "values:len {}",
-        match n { 0 => "0", 1..=6 => "1-6", 32 => "32", _ => "7-31" }
+        match n { 0 => "0", 1..=6 => "1-6", 32 => "32", 33.. => "33-40", _ => "7-31" }
     ));
     let mut names: Vec<String> = vec![];
     let mut out = vec![];
